@@ -408,6 +408,19 @@ def oracle(ctx, kind, case, out):
         fail("Message.to_wire changed the message object", sig="objstate")
     if wa != w or wb != w:
         fail("the same message object rendered twice gives different octets", sig="reuse")
+    # the origin given through the message's own attribute; the two-octet length prefix
+    try:
+        mo = g.mk_message(am, pad=pad, request_payload=reqp)
+        mo.origin = org
+        wo = mo.to_wire(max_size=max_size, prefer_truncation=bool(prefer), want_shuffle=False)
+        wp = mo.to_wire(origin=org, max_size=max_size, prefer_truncation=bool(prefer), want_shuffle=False, prepend_length=True)
+    except Exception as e:  # noqa
+        fail("rendering with Message.origin / prepend_length raised " + type(e).__name__, sig="variants")
+        return F
+    if wo != w:
+        fail("the origin taken from Message.origin renders differently from the origin argument", sig="variants")
+    if wp != len(w).to_bytes(2, "big") + w:
+        fail("prepend_length does not prefix the rendering with its length", sig="variants")
     return F
 
 
